@@ -291,7 +291,11 @@ const SPEED_KEYS: [&str; 11] = [
 ];
 const TSDR_DEFAULT: [u16; 11] = [60, 60, 60, 60, 60, 60, 100, 150, 250, 450, 800];
 
+/// SET cases stay inside the proved fragment: no back slash in string contents
+static NO_BACKSLASH: std::sync::atomic::AtomicBool = std::sync::atomic::AtomicBool::new(false);
+
 fn gen_string(r: &mut Rng) -> String {
+    let no_bs = NO_BACKSLASH.load(std::sync::atomic::Ordering::Relaxed);
     let n = match r.below(10) {
         0 => 0,
         1..=6 => r.range(1, 10) as usize,
@@ -304,7 +308,9 @@ fn gen_string(r: &mut Rng) -> String {
             0 => {
                 // a back slash directly before CR/LF would be a line continuation marker: avoided
                 let c = *r.pick(&specials);
-                s.push_str(c);
+                if !(no_bs && c == "\\") {
+                    s.push_str(c);
+                }
             }
             1 => {
                 if !s.ends_with('\\') && r.chance(1, 4) {
@@ -408,9 +414,11 @@ pub struct GenDesc {
     /// (first,last) for a range slot, or the list of references for a set slot
     pub slot_specs: Vec<Result<(u16, u16), Vec<u16>>>,
     pub slot_default_ref: Vec<u16>,
+    pub settings_only: bool,
 }
 
 pub fn gen_desc(r: &mut Rng, settings_only: bool) -> GenDesc {
+    NO_BACKSLASH.store(settings_only, std::sync::atomic::Ordering::Relaxed);
     let mut d = gp::GenericStationDescription::default();
     let p_set = r.range(2, 9) as u64; // probability (of 10) that a scalar differs from its default
     let mut on = |r: &mut Rng| r.below(10) < p_set;
@@ -449,7 +457,8 @@ pub fn gen_desc(r: &mut Rng, settings_only: bool) -> GenDesc {
     if on(r) {
         d.max_diag_data_length = gen_u(r, 255) as u8;
     }
-    d.modular_station = r.chance(1, 2);
+    // (Modular_Station / Max_Module are outside the proved settings fragment: SET files do not use them)
+    d.modular_station = !settings_only && r.chance(1, 2);
     d.max_modules = if d.modular_station && r.chance(3, 4) { gen_u(r, 255) as u8 } else { 1 };
     if on(r) {
         d.max_input_length = gen_u(r, 255) as u8;
@@ -489,7 +498,7 @@ pub fn gen_desc(r: &mut Rng, settings_only: bool) -> GenDesc {
         }
     }
     if settings_only {
-        return GenDesc { d, legacy: true, slot_specs: vec![], slot_default_ref: vec![] };
+        return GenDesc { d, legacy: true, slot_specs: vec![], slot_default_ref: vec![], settings_only };
     }
     let mut slot_specs = vec![];
     let mut slot_default_ref = vec![];
@@ -611,7 +620,7 @@ pub fn gen_desc(r: &mut Rng, settings_only: bool) -> GenDesc {
         }
         d.unit_diag.areas.push(gp::UnitDiagArea { first: gen_u(r, 65535) as u16, last: gen_u(r, 65535) as u16, values });
     }
-    GenDesc { d: d.clone(), legacy, slot_specs, slot_default_ref }
+    GenDesc { d: d.clone(), legacy, slot_specs, slot_default_ref, settings_only }
 }
 
 // ------------------------------------------------------------------------------------------ pretty printer with lexical variation
@@ -915,7 +924,7 @@ pub fn render(r: &mut Rng, g: &GenDesc, st: &Style) -> String {
     num!("Max_Input_Len", max_input_length);
     num!("Max_Output_Len", max_output_length);
     num!("Max_Data_Len", max_data_length);
-    if d.modular_station || r.chance(1, 3) {
+    if d.modular_station || (!g.settings_only && r.chance(1, 3)) {
         scalars.push(Stmt::Bool("Modular_Station", d.modular_station));
     }
     // a compact station has exactly one module whatever Max_Module says; a modular one needs the key
@@ -924,7 +933,7 @@ pub fn render(r: &mut Rng, g: &GenDesc, st: &Style) -> String {
         if d.max_modules != 1 || r.chance(1, 2) {
             scalars.push(Stmt::Num("Max_Module", d.max_modules as u64));
         }
-    } else if r.chance(1, 3) {
+    } else if !g.settings_only && r.chance(1, 3) {
         scalars.push(Stmt::Num("Max_Module", 1));
     }
     let bits = d.supported_speeds.bits();
@@ -954,7 +963,7 @@ pub fn render(r: &mut Rng, g: &GenDesc, st: &Style) -> String {
             lines.push(Stmt::LegacyData(v.clone()));
         }
         // the length line may stand anywhere among the data lines (the parser checks both orders)
-        if p.length != 0 || (p.data_const.is_empty() && r.chance(1, 2)) {
+        if p.length != 0 || (p.data_const.is_empty() && !g.settings_only && r.chance(1, 2)) {
             let pos = r.below(lines.len() as u64 + 1) as usize;
             lines.insert(pos, Stmt::LegacyLen(p.length as u64));
         }
@@ -1002,7 +1011,7 @@ pub fn render(r: &mut Rng, g: &GenDesc, st: &Style) -> String {
         mods.push(Stmt::Slots(slot_items));
         slot_items = rest;
     }
-    if d.slots.is_empty() && r.chance(1, 6) {
+    if d.slots.is_empty() && !g.settings_only && r.chance(1, 6) {
         mods.push(Stmt::Slots(vec![]));
     }
     let mut texts: Vec<(u16, Arc<BTreeMap<String, i64>>)> = vec![];
@@ -1396,7 +1405,8 @@ pub fn render(r: &mut Rng, g: &GenDesc, st: &Style) -> String {
                 }
                 p.kw("Unit_Diag_Area_End");
             }
-            Stmt::Junk => match p.r.below(8) {
+            // (settings-only files: only ignored `key = number | string` settings)
+            Stmt::Junk => match if g.settings_only { *p.r.pick(&[1u64, 2, 3, 6]) } else { p.r.below(8) } {
                 0 => {
                     p.key("Slave_Family", None);
                     p.tok("3@Some Family;0 = General");
